@@ -35,6 +35,11 @@ pub fn registry() -> Vec<Box<dyn Scenario>> {
 }
 
 pub fn find(prop: &str) -> Option<Box<dyn Scenario>> {
+    match prop {
+        "D00" => return Some(Box::new(crate::selftest::DeterminismScenario)),
+        "F00" => return Some(Box::new(crate::selftest::FidelityScenario)),
+        _ => {}
+    }
     registry().into_iter().find(|s| s.property() == prop)
 }
 
